@@ -40,6 +40,7 @@ def gen_cases(tier, seed):
     cases.append({"kind": "corpus", "which": "mfdc_two", "rs": "corpus", "full": True})
     cases.append({"kind": "corpus", "which": "mgs_124_7", "rs": "corpus", "full": True})
     cases.append({"kind": "corpus", "which": "mpc_cons", "rs": "corpus", "full": True})
+    cases.append({"kind": "restricted", "rs": "restricted"})
     for cls in MIN_CLASSES + K_CLASSES:
         for i in range(n):
             cases.append({"kind": "model", "cls": cls, "rs": f"C13:{seed}:{cls}:{i}", "variant": i % 3})
@@ -180,7 +181,43 @@ def one_run(build, objective, inject):
         M.TRACE.inject = None
 
 
+def run_restricted(case):
+    """A model whose weights are restricted to a given superset and that has NO solution under that restriction must not report itself
+    solved (nothing can have proven optimality of the current, restricted model): the greedy shortcut of kFlowDecomp included."""
+    viol = []; obs = collections.Counter()
+    import networkx as nx
+    for name, edges, k, sup in (("chain", [("s", "a", 5), ("a", "t", 5)], 1, [4]), ("diamond", [("s", "a", 2), ("a", "t", 2), ("s", "b", 5), ("b", "t", 5)], 2, [2, 4]),
+                                ("chain-ok", [("s", "a", 5), ("a", "t", 5)], 1, [5])):
+        for oo in (None, {"optimize_with_greedy": False}):
+            G = nx.DiGraph()
+            for u, v, f in edges:
+                G.add_edge(u, v, flow=f)
+            kw_ = dict(flow_attr="flow", k=k, weight_type=int, solution_weights_superset=list(sup), solver_options=dict(SO))
+            if oo is not None:
+                kw_["optimization_options"] = dict(oo)
+            r = M.safe_call(fp.kFlowDecomp, G, **kw_)
+            if r[0] != "ok":
+                obs["c13.restricted_ctor_failed"] += 1
+                continue
+            m = r[1]; M.safe_call(m.solve)
+            obs["c13.restricted_models"] += 1
+            solved = bool(m.is_solved())
+            if solved:
+                sol = m.get_solution()
+                used = sorted(w for p_, w in zip(sol["paths"], sol["weights"]) if p_)
+                pool = sorted(sup)
+                ok = all(used.count(x) <= pool.count(x) for x in set(used))
+                if not ok:
+                    viol.append({"sig": "C13/solved-without-proof/kFlowDecomp/answer-outside-the-weights-superset" + ("" if oo else "/greedy"),
+                                 "msg": f"{name}: edges {edges} k={k} solution_weights_superset={sup} options={oo}: is_solved() True with weights {sol['weights']} on paths {sol['paths']}"})
+            elif name == "chain-ok":
+                viol.append({"sig": "C13/restricted-model-with-a-solution-unsolved", "msg": f"{name} options={oo}"})
+    return {"viol": viol, "obs": dict(obs), "nontrivial": True, "keys": ["restricted"], "sample": {"restricted": True}}
+
+
 def run_case(case):
+    if case["kind"] == "restricted":
+        return run_restricted(case)
     viol = []; obs = collections.Counter(); keys = []
     rng = gen.rng_for(case["rs"])
     M.TRACE.install()
